@@ -12,7 +12,7 @@ def scenarios(rng, tier):
     for k in range(n):
         s.start('tbl_%d' % k); s.op('mk 0'); s.op('mk 1'); s.op('adv', rng.randrange(100000))
         nkeys = rng.choice([3, 8, 17, 24])
-        ks = [(hx(mac(rng.randrange(1, 7))), rng.randrange(4)) for _ in range(nkeys)]
+        ks = [(hx(mac(rng.randrange(1, 7)) if k % 3 else rng.choice(TWINS)), rng.randrange(4)) for _ in range(nkeys)]     # every third table: mappers one octet apart
         bias_add = rng.choice([0.3, 0.5, 0.8])
         for i in range(200):
             r = rng.random(); m, g = rng.choice(ks)
